@@ -103,17 +103,37 @@ struct capture_logger : tapkee::LoggerImplementation
     std::vector<long> wanted;
     std::ostringstream snaps;
     bool first = true;
+    bool bad_format = false;
     void message_info(const std::string& msg)
     {
         const char* pre = "Iteration ";
         if (msg.compare(0, strlen(pre), pre) != 0)
             return;
+        // any deviation from "Iteration <int>: error is <double>" is reported as an unreadable log (a broken observation
+        // channel), never turned into a number
         size_t colon = msg.find(':');
-        long it = std::stol(msg.substr(strlen(pre), colon - strlen(pre)));
+        char* end = nullptr;
+        long it = std::strtol(msg.c_str() + strlen(pre), &end, 10);
+        if (colon == std::string::npos || end != msg.c_str() + colon || end == msg.c_str() + strlen(pre))
+        {
+            bad_format = true;
+            return;
+        }
         if (std::find(wanted.begin(), wanted.end(), it) == wanted.end())
             return;
         size_t pos = msg.find("error is ");
-        double C = std::strtod(msg.c_str() + pos + 9, nullptr);
+        if (pos == std::string::npos)
+        {
+            bad_format = true;
+            return;
+        }
+        const char* num = msg.c_str() + pos + 9;
+        double C = std::strtod(num, &end);
+        if (end == num || *end != '\0' || !std::isfinite(C))
+        {
+            bad_format = true;
+            return;
+        }
         snaps << (first ? "" : ";") << it << "/" << vh::num(C) << "/";
         for (size_t i = 0; i < ny; i++)
             snaps << (i ? "," : "") << vh::num(Y[i]);
@@ -304,6 +324,7 @@ int main()
             lg->wanted = vh::parse_ints(f["at"]);
             lg->snaps.str("");
             lg->first = true;
+            lg->bad_format = false;
             vh_traj_upto = f.count("upto") ? std::stol(f["upto"]) : -1;
             vh_traj.str("");
             tsne::verif_iteration_observer() = vh_observe_iteration;
@@ -311,7 +332,8 @@ int main()
             t.run(Xm, N, D, Y.get(), dim, vh::parse_num(f["perp"]), vh::parse_num(f["theta"]));
             tapkee::Logging::instance().disable_info();
             tsne::verif_iteration_observer() = nullptr;
-            out << "snaps=" << lg->snaps.str() << " Y=" << nums(Y.get(), (size_t)N * dim);
+            out << "snaps=" << lg->snaps.str() << " logfmt=" << (lg->bad_format ? "BAD" : "ok")
+                << " Y=" << nums(Y.get(), (size_t)N * dim);
             if (vh_traj_upto >= 0)
                 out << " traj=" << vh_traj.str();
             lg->Y = nullptr;
